@@ -12,7 +12,7 @@ Enumerated (all exhaustively, no sampling):
      file and saved with mj_saveLastXML; also specs edited through the mjSpec C API (mjs_attach);
   C. every shipped /repo/model/**.xml and /repo/test/**.xml that loads here.
 Oracle: compile -> save (full precision 17) -> parse -> compile: every mjModel array, option,
-statistic and visual field equal (integers and float32 exactly, float64 to 1e-10 of the array scale:
+statistic and visual field equal (integers and float32 exactly, float64 to 1e-8 of the array scale:
 re-normalising an already normalised quaternion is not idempotent to the last bit -- such ulp-level
 differences are counted, not reported); the reloaded text must parse; save(load(save(x))) == save(x)
 textually (differences in sibling order only are counted separately).  At the default precision the
@@ -44,11 +44,11 @@ META = dict(
          "on an alphabet of kinematic forests with keyframes/assets/defaults/frames (also through mj_loadXML + "
          "mj_saveLastXML and on specs edited with mjs_attach) and on every shipped model that loads here.",
     note="tinyxml2 is an expat-backed shim (DOM + printer); PNG/OBJ/marching-cubes decoders are inert so file-based "
-         "textures/OBJ meshes/SDF meshes are skipped (counted). float64 arrays are compared to 1e-10 of the array "
+         "textures/OBJ meshes/SDF meshes are skipped (counted). float64 arrays are compared to 1e-8 of the array "
          "scale (ulp-level renormalisation noise is counted in 'ulp_noise_docs'), everything else bit-exactly.",
     design_ref="DESIGN.md §3 C32")
 
-TOL64 = 1e-10       # observed renormalisation noise <= ~2e-12 of the array scale
+TOL64 = 1e-8        # observed renormalisation noise <= 4.1e-11 of the array scale (250x head-room); a 6-digit print error is >= 1e-7
 TOL6 = 1e-4         # default precision (6 significant digits): observed <= ~2e-6
 
 
@@ -536,12 +536,18 @@ def run_file(lib, part, path, size_cap):
             part.add("ulp_noise_docs")
             part["extra"]["max_noise"] = max(part["extra"].get("max_noise", 0.0), max(e for _, e in noise))
         if bad:
-            part.violation("shipped %s: arrays differ after save/reload [%s]" % (rel, ",".join(f for f, _ in bad[:4])),
-                           "%s: %s" % (rel, "; ".join("%s (%s)" % (f, e) for f, e in bad[:8])), {"file": rel})
+            perm = R.permuted(m, m2)
+            if perm:
+                part.violation("object ids are permuted by save/reload: elements inside <frame>/<replicate> are written after the body's direct children",
+                               "%s: the reloaded model has its %ss in a different order" % (rel, perm), {"file": rel})
+            else:
+                # one key per signature (set of differing arrays), not per file: files hit by the same root cause share it
+                part.violation("shipped model: arrays differ after save/reload [%s]" % ",".join(f for f, _ in bad[:6]),
+                               "%s: %s" % (rel, "; ".join("%s (%s)" % (f, e) for f, e in bad[:8])), {"file": rel})
         t2 = R.save_string(lib, spec2)
         tc = R.text_cmp(t1, t2)
         if tc == "different":
-            part.violation("shipped %s: saved text is not a fix-point" % rel, rel, {"file": rel})
+            part.violation("shipped model: saved text is not a fix-point", rel, {"file": rel})
         elif tc != "equal":
             part.add("fixpoint_" + ("sibling_order_only" if tc == "reordered" else "numeric_noise_only"))
     finally:
@@ -620,7 +626,7 @@ def run(ctx):
                 "B: all forests <=%d bodies x joint menu %s with keyframes, builtin textures, inline mesh, nested defaults, "
                 "frames (+ precision-6 pass, + mj_loadXML/mj_saveLastXML on every 4th, + 6 mjs_attach-built specs). "
                 "C: every shipped model/test XML <= %d bytes that loads here (skips counted by reason)." % (nmax, menu, _OPTS["size_cap"]))
-    ctx.assumptions = ["float64 arrays equal to 1e-10 of the array scale (quaternion re-normalisation is not idempotent to the last bit; "
+    ctx.assumptions = ["float64 arrays equal to 1e-8 of the array scale (+1e-14 absolute) (quaternion re-normalisation is not idempotent to the last bit; "
                        "counted in ulp_noise_docs / max_noise); integers, float32 arrays and mjVisual bytes exactly",
                        "XML well-formedness and printing are the expat-backed tinyxml2 shim's",
                        "attributes listed in 'unscaffolded' could not be given a valid value on the scaffold and are not covered"]
